@@ -342,10 +342,17 @@ impl Check for C07 {
         let clear_of_ticks = instants.iter().all(|t| t % PERIOD < PERIOD - 100);
         // a partially accepted write shifts nothing in time and needs no such guard
         let partial = case.ka_prefix > 0;
-        if ((case.delay_ka_ms > 0 && echo_safe && clear_of_ticks) || partial) && !ka_positions.is_empty() {
+        let pending = case.delay_ka_ms > 0 && echo_safe && clear_of_ticks;
+        if (pending || partial) && !ka_positions.is_empty() {
             let k = ka_positions[crate::runner::idx(u16::from(case.ka_pick) << 8, ka_positions.len())];
             let mut wscript = vec![sim::WStep::All; k];
-            wscript.push(if partial { sim::WStep::Prefix(u16::from(case.ka_prefix)) } else { sim::WStep::PendingFor(u16::from(case.delay_ka_ms)) });
+            // a few bytes accepted at once, and / or the (rest of the) frame pending for a while
+            if partial {
+                wscript.push(sim::WStep::Prefix(u16::from(case.ka_prefix)));
+            }
+            if pending {
+                wscript.push(sim::WStep::PendingFor(u16::from(case.delay_ka_ms)));
+            }
             let (out3, _) = timed::run(&case.sc, &TransportScript { wscript, rscript: vec![] }, &SegPlan::new(), case.select_seed);
             info.class(if partial { "third_run:keep_alive_write_partial" } else { "third_run:keep_alive_write_pending" });
             let seq = |o: &sim::SimOutcome| -> Vec<String> { o.cb.iter().map(|(_, p)| crate::checks::c08::stable(p)).collect() };
